@@ -23,6 +23,14 @@ def run(ctx):
         for d, L in full:
             d = dict(d); d["umask"] = um
             cs.append((d, L))
+        # the same publications with auto_sync switched off: durability is waived, permissions are not
+        if um == 0o022:
+            rng2 = C.SplitMix(ctx.seed + 1919)
+            for d, L in full:
+                if d["op"][0] in ("get", "touch") or (ctx.quick() and rng2.below(4)):
+                    continue
+                d = dict(d); d["umask"] = um; d["abs"] = d["abs"] + " (auto_sync off)"
+                cs.append((d, ["autosync 0" if l == "autosync 1" else l for l in L]))
     # temp-file objects whose own mode is unusual (execute bits, group-readable): what is published is 0444
     for w in (("plain", 100), ("sharded", 4, 100)):
         for opn in ("set_temp", "put_temp"):
